@@ -72,9 +72,14 @@ def post_wavelength_from_energy(energy, result):
     e = np.asarray(energy, dtype=float)
     r = np.asarray(result, dtype=float)
     if r.shape != e.shape:
+        _state['breach'] = 'result shape %r for input shape %r' % (r.shape, e.shape)
         return False
     ok = (e > 0) & np.isfinite(e)
-    return bool(np.all(np.abs(e[ok] * r[ok] ** 2 / _state['EF'] - 1) <= 1e-12))
+    good = bool(np.all(np.abs(e[ok] * r[ok] ** 2 / _state['EF'] - 1) <= 1e-12))
+    if not good:
+        _state['breach'] = ('neutron_wavelength(%r) = %r: E*lambda^2 = %r, h^2/(2 m_n) = %r meV A^2'
+                            % (energy, result, (e * r ** 2).tolist(), _state['EF']))[:700]
+    return good
 
 
 def post_energy_from_wavelength(wavelength, result):
@@ -83,9 +88,14 @@ def post_energy_from_wavelength(wavelength, result):
     w = np.asarray(wavelength, dtype=float)
     r = np.asarray(result, dtype=float)
     if r.shape != w.shape:
+        _state['breach'] = 'result shape %r for input shape %r' % (r.shape, w.shape)
         return False
     ok = (w > 0) & np.isfinite(w)
-    return bool(np.all(np.abs(r[ok] * w[ok] ** 2 / _state['EF'] - 1) <= 1e-12))
+    good = bool(np.all(np.abs(r[ok] * w[ok] ** 2 / _state['EF'] - 1) <= 1e-12))
+    if not good:
+        _state['breach'] = ('neutron_energy(%r) = %r: E*lambda^2 = %r, h^2/(2 m_n) = %r meV A^2'
+                            % (wavelength, result, (r * w ** 2).tolist(), _state['EF']))[:700]
+    return good
 
 
 def post_wavelength_from_velocity(velocity, result):
@@ -94,9 +104,14 @@ def post_wavelength_from_velocity(velocity, result):
     v = np.asarray(velocity, dtype=float)
     r = np.asarray(result, dtype=float)
     if r.shape != v.shape:
+        _state['breach'] = 'result shape %r for input shape %r' % (r.shape, v.shape)
         return False
     ok = (v > 0) & np.isfinite(v)
-    return bool(np.all(np.abs(r[ok] * v[ok] / _state['VF'] - 1) <= 1e-12))
+    good = bool(np.all(np.abs(r[ok] * v[ok] / _state['VF'] - 1) <= 1e-12))
+    if not good:
+        _state['breach'] = ('neutron_wavelength_from_velocity(%r) = %r: v*lambda = %r, h/m_n = %r A m/s'
+                            % (velocity, result, (r * v).tolist(), _state['VF']))[:700]
+    return good
 
 
 def snap_b_c(b_c):
@@ -131,8 +146,10 @@ def post_nonnegative(number_density, wavelength, b_c, sigma_s, result):
     if np.any(np.asarray(sigma_s) - 4 * math.pi / 100 * np.abs(np.asarray(b_c)) ** 2 < 0):
         n['reach.clip_engaged'] += 1
     (sld_re, sld_im, sld_inc), (coh, abs_, inc), pen = result
-    for x in (sld_im, sld_inc, coh, abs_, inc, pen):
+    for name, x in zip(NAMES[1:], (sld_im, sld_inc, coh, abs_, inc, pen)):
         if not np.all(np.asarray(x, dtype=float) >= 0):      # NaN fails as well
+            _state['breach'] = ('%s = %r for number_density=%r wavelength=%r b_c=%r sigma_s=%r'
+                                % (name, x, number_density, wavelength, b_c, sigma_s))[:700]
             return False
     return True
 
@@ -146,7 +163,10 @@ def post_penetration(number_density, sigma_s, result):
     prod = np.atleast_1d(np.asarray(pen, dtype=float)
                          * (np.asarray(abs_, dtype=float) + number_density * np.asarray(sigma_s, dtype=float)))
     ok = np.isfinite(prod)
-    return bool(np.all(np.abs(prod[ok] - 1) <= 1e-12))
+    good = bool(np.all(np.abs(prod[ok] - 1) <= 1e-12))
+    if not good:
+        _state['breach'] = 'penetration*(abs_xs + N*sigma_s) = %r' % (prod.tolist()[:7],)
+    return good
 
 
 def attach_contracts(nsf):
@@ -175,6 +195,20 @@ def attach_contracts(nsf):
 # --------------------------------------------------------------------------
 # setup
 # --------------------------------------------------------------------------
+def _watch_first(ctx, reach, func, texts, label):
+    """Watch the first source line of *func* matching one of *texts*; a source that no longer contains any of
+    them must not stop the check (the reach requirement is then dropped and the fact is noted)."""
+    for text in texts:
+        try:
+            reach.watch_line_matching(func, text, label)
+        except (LookupError, OSError, TypeError):
+            continue
+        _state['watched'].add(label)
+        return True
+    ctx.note('no source line for reach counter %s in %s' % (label, getattr(func, '__qualname__', func)))
+    return False
+
+
 def setup(ctx):
     import periodictable as pt
     from periodictable import nsf, constants as c
@@ -192,8 +226,9 @@ def setup(ctx):
     reach.watch(nsf.neutron_scattering.__wrapped__ if hasattr(nsf.neutron_scattering, '__wrapped__')
                 else nsf.neutron_scattering, 'neutron_scattering')
     sbw = nsf.Neutron.scattering_by_wavelength
-    reach.watch_line_matching(sbw, 'return ones*self.b_c_complex', 'branch.constant_b_c')
-    reach.watch_line_matching(sbw, 'np.interp(', 'branch.energy_table')
+    _state['watched'] = set()
+    _watch_first(ctx, reach, sbw, ('return ones*self.b_c_complex', 'if self.nsf_table is None'), 'branch.constant_b_c')
+    _watch_first(ctx, reach, sbw, ('np.interp(', 'return b_c, sigma_s'), 'branch.energy_table')
     try:
         reach.start()
     except Exception as exc:       # monitoring unavailable: requirements below make the run inconclusive
@@ -348,6 +383,14 @@ class _Fail(Exception):
     pass
 
 
+def _breach_text(exc):
+    """Description of the failed postcondition (first lines of icontract's message) plus the values
+    recorded by the condition function."""
+    lines = [l for l in str(exc).splitlines() if l.strip() and not l.startswith('OLD was')]
+    head = ' '.join(lines[1:2] or lines[:1])[:200]
+    return '%s [%s]' % (head, _state.pop('breach', 'no values recorded'))
+
+
 def _call(ctx, what, compound, **kw):
     """neutron_scattering through the module attribute; contract breaches and
     library exceptions become violations of the family."""
@@ -355,7 +398,7 @@ def _call(ctx, what, compound, **kw):
     try:
         res = nsf.neutron_scattering(compound, **kw)
     except ContractBreach as exc:
-        ctx.violation('%s: in-process postcondition failed: %s' % (what, str(exc)[:600]), relation=what,
+        ctx.violation('%s: in-process postcondition failed: %s' % (what, _breach_text(exc)), relation=what,
                       symptom='contract', kw=_kwj(kw))
         raise _Fail()
     ctx.count('calls.neutron_scattering')
@@ -482,6 +525,8 @@ def check_family(ctx, case):
         _family_body(ctx, case)
     except _Fail:
         pass
+    except ContractBreach as exc:        # a breach outside the wrapped calls (conversion of the vector entries)
+        ctx.violation('in-process postcondition failed: %s' % _breach_text(exc), relation='family', symptom='contract')
 
 
 def _family_body(ctx, case):
@@ -535,7 +580,7 @@ def _family_body(ctx, case):
     try:
         E = nsf.neutron_energy(wl)
     except ContractBreach as exc:
-        ctx.violation('neutron_energy(%r): postcondition failed: %s' % (wl, str(exc)[:300]), relation='energy',
+        ctx.violation('neutron_energy(%r): postcondition failed: %s' % (wl, _breach_text(exc)), relation='energy',
                       symptom='contract')
         raise _Fail()
     E = float(E) if case.get('energy_scalar_type') == 'float' else np.float64(E)
@@ -607,7 +652,7 @@ def check_convert(ctx, case):
         v_in = wrap(case['velocities']) if kind != 'list' else np.array(case['velocities'], dtype=float)
         lam_v = nsf.neutron_wavelength_from_velocity(v_in)
     except ContractBreach as exc:
-        ctx.violation('conversion postcondition failed: %s' % str(exc)[:600], relation='convert', symptom='contract')
+        ctx.violation('conversion postcondition failed: %s' % _breach_text(exc), relation='convert', symptom='contract')
         return
     V = np.asarray(case['velocities'], dtype=float)[:max(n, 1)]
     ctx.distinct_case(('convert', kind, n))
@@ -658,7 +703,7 @@ def check_convert(ctx, case):
     try:
         Ev = np.asarray(nsf.neutron_energy(lam_v), dtype=float)
     except ContractBreach as exc:
-        ctx.violation('conversion postcondition failed: %s' % str(exc)[:600], relation='convert', symptom='contract')
+        ctx.violation('conversion postcondition failed: %s' % _breach_text(exc), relation='convert', symptom='contract')
         return
     want = 0.5 * _state['m_n'] * V ** 2 / _state['eV'] * 1e3
     err = float(np.max(np.abs(Ev / want - 1)))
@@ -679,7 +724,7 @@ def check_anchors(ctx, case):
                  float(nsf.neutron_energy(nsf.neutron_wavelength_from_velocity(2200))), 25.3),
                 ('ABSORPTION_WAVELENGTH', float(nsf.ABSORPTION_WAVELENGTH), 1.798)]
     except ContractBreach as exc:
-        ctx.violation('conversion postcondition failed at the anchors: %s' % str(exc)[:600], relation='anchors',
+        ctx.violation('conversion postcondition failed at the anchors: %s' % _breach_text(exc), relation='anchors',
                       symptom='contract')
         return
     ctx.distinct_case(('anchors',))
@@ -711,8 +756,10 @@ def finish(ctx):
     for name in ('contract._calculate_scattering', 'contract.neutron_wavelength', 'contract.neutron_energy',
                  'contract.neutron_wavelength_from_velocity'):
         ctx.require(name, 1, 'the in-process postcondition must have been evaluated')
-    ctx.require('reach.branch.constant_b_c', 1, 'constant-b_c branch of scattering_by_wavelength never entered')
-    ctx.require('reach.branch.energy_table', 1, 'energy-table branch of scattering_by_wavelength never entered')
+    if 'branch.constant_b_c' in _state.get('watched', ()):
+        ctx.require('reach.branch.constant_b_c', 1, 'constant-b_c branch of scattering_by_wavelength never entered')
+    if 'branch.energy_table' in _state.get('watched', ()):
+        ctx.require('reach.branch.energy_table', 1, 'energy-table branch of scattering_by_wavelength never entered')
     ctx.require('reach.clip_engaged', 1, 'no call with sigma_s < sigma_c: the incoherent clip never engaged')
     ctx.require('seen.ion_atoms', 1, 'no ion in any family')
     for Z, A, _ in uni.edep:
